@@ -5,7 +5,15 @@ package main
 // splitmix64: every random choice of the harness derives from one state seeded by VERIF_SEED.
 type rng struct{ s uint64 }
 
-func newRng(seed uint64) *rng { return &rng{s: seed*0x9E3779B97F4A7C15 + 0x1234567} }
+func newRng(seed uint64) *rng {
+	// scramble the seed so that neighbouring seeds do not give shifted copies of one stream
+	z := seed + 0x632BE59BD9B4E019
+	z = (z ^ (z >> 32)) * 0xD6E8FEB86659FD93
+	z = (z ^ (z >> 32)) * 0xD6E8FEB86659FD93
+	r := &rng{s: z ^ (z >> 32)}
+	r.next()
+	return r
+}
 
 func (r *rng) next() uint64 {
 	r.s += 0x9E3779B97F4A7C15
